@@ -76,7 +76,49 @@ def c04(ck, F, tier):
     guarded(ck, um.push_last, F)
 
 
-PROPS = {"C01": c01, "C02": c02, "C03": c03, "C04": c04}
+def c23(ck, F, tier):
+    import rules_names as rn
+    from tables import load_tables
+    ck.explanation = (
+        "Exhaustive static decision of the name codecs: (TABLE-code) Functions::lookup (field->variant, extracted from its "
+        "if-chain) is a bijection between the fields of language::Functions and the variants of Function; "
+        "to_localized_name (variant->field, from its match) is its inverse cell by cell; into_iter lists every variant "
+        "once; evaluate_function has an arm per variant and no wildcard; to_xlsx_string literals minus the _xlfn prefixes "
+        "equal the English name of their own variant and parse_primary strips those prefixes; (TABLE-data) per language, on "
+        "the decoded language.bin: names pairwise distinct, fixed points of to_uppercase, single identifier tokens under the "
+        "lexer's identifier class read from consume_identifier, booleans do not clash, error names distinct and none a "
+        "prefix of one tested later by consume_error; (TABLE-errors) the four error codecs are mutually inverse and the "
+        "Display/xlsx form parses back.")
+    ck.rule("TABLE-code", "function name codec tables are mutually inverse bijections", floor=1100, exhaustive=True)
+    ck.rule("TABLE-data", "language table data: distinct, uppercase, lexable, prefix-free", floor=7000, exhaustive=True)
+    ck.rule("TABLE-errors", "error codecs mutually inverse, Display parses back", floor=60, exhaustive=True)
+    ck.trust("generated bitcode decoder for language.bin (types regenerated from the ADT facts of the current tree)")
+    T = load_tables(F)
+    r = guarded(ck, rn.function_tables, F)
+    if r:
+        lookup, printer, variants, fields = r
+        guarded(ck, rn.xlsx_names, F, printer, T)
+        guarded(ck, rn.table_data, F, lookup, printer, T, tier)
+        guarded(ck, rn.source_matches_bin, F, T)
+    guarded(ck, rn.error_tables, F, T)
+
+
+def c26(ck, F, tier):
+    import rules_io as io
+    ck.explanation = (
+        "Structural decision of losslessness of the internal format: (DERIVE-CLOSURE) every local type in the field closure "
+        "of types::Workbook derives both bitcode::Encode and bitcode::Decode and no field carries a bitcode attribute; "
+        "(BYTES-SHAPE) to_bytes encodes &self.workbook itself with no preprocessing, from_bytes decodes a types::Workbook and "
+        "hands it to from_workbook, which cannot return Ok without passing parse_formulas and parse_defined_names, rebuilds the "
+        "shared-string index, and builds the Model around the very workbook it was given. bitcode's own correctness is trusted.")
+    ck.rule("DERIVE-CLOSURE", "Encode+Decode derived on the whole field closure of Workbook, no skip attributes", floor=100, exhaustive=True)
+    ck.rule("BYTES-SHAPE", "shape of to_bytes / from_bytes / from_workbook", floor=7)
+    ck.trust("bitcode crate (derive and codec)")
+    guarded(ck, io.derive_closure, F)
+    guarded(ck, io.bytes_roundtrip_shape, F)
+
+
+PROPS = {"C01": c01, "C02": c02, "C03": c03, "C04": c04, "C23": c23, "C26": c26}
 
 
 def run(pid, tier):
